@@ -410,7 +410,22 @@ fn scenario(ctx: &Ctx, idx: u64) -> Report {
         for t in tasks {
             t.abort();
         }
-        wiremon::always_on(&mut report, &net, &[addr], &info);
+        let events = wiremon::always_on(&mut report, &net, &[addr], &info);
+        if let Some(h) = &hammer {
+            // how often the race the hammer is there for was actually set up: API calls issued in the
+            // very instant the bootstrap worker published a state change
+            let st = h.lock().unwrap();
+            for e in &events {
+                if let btdht::verif::EventKind::BootstrapState { state } = e.kind {
+                    if st.instants.contains(&net.micros_at(e.at)) {
+                        report.count("bootstrap_state_changes_with_api_calls_in_the_same_instant");
+                        if state == "Bootstrapped" {
+                            report.count("bootstrap_completions_with_api_calls_in_the_same_instant");
+                        }
+                    }
+                }
+            }
+        }
         report
     })
 }
@@ -449,6 +464,7 @@ pub fn check(tier: Tier) -> Check {
             ("configs_with_node_router_overlap", tier.pick(0, 0)),
             ("api_liveness_probes", tier.pick(12_000, 80_000)),
             ("api_calls_racing_deliveries", tier.pick(60_000, 400_000)),
+            ("bootstrap_completions_with_api_calls_in_the_same_instant", tier.pick(1_200, 8_000)),
         ],
         exhaustive: false,
     }
